@@ -334,7 +334,9 @@ def prov_root(v, depth=0):
 def m3(ctx, rep):
     # anchored on the public entry of the writer; local helpers (write_multiple_files, an `impl Output` method, a per-module
     # helper ...) are expanded, so the rule sees the folder-mode loop wherever it lives
-    local = tuple(g['name'].split('::')[-1] for g in ctx.astq['functions'] if g['file'] == 'cli/src/writer.rs' and g['name'].split('::')[-1] not in ('write_generated', 'check_write_file'))
+    from .. import wiring
+    wname = wiring.output_writer(ctx)['name']     # the compare-before-write writer, found by role
+    local = tuple(g['name'].split('::')[-1] for g in ctx.astq['functions'] if g['file'] == 'cli/src/writer.rs' and g['name'].split('::')[-1] not in ('write_generated', wname))
     f = ctx.fnx('write_generated', file='cli/src/writer.rs', force=local, depth=4)
     site = {'file': f['file'], 'line': f['line']}
 
@@ -357,7 +359,7 @@ def m3(ctx, rep):
         fr = [x for x in c['guard'] if x.get('k') in ('for', 'if')]
         return len(fr) == 1 and fr[0].get('k') == 'for' and vt.ckey(fr[0].get('over')) == lkey
     gen = [c for c in f['calls'] if c.get('f') == 'generate_types' and any(x.get('k') == 'for' for x in c['guard'])]
-    wr = [c for c in f['calls'] if c.get('f') == 'check_write_file' and any(x.get('k') == 'for' for x in c['guard'])]
+    wr = [c for c in f['calls'] if c.get('f') == wname and any(x.get('k') == 'for' for x in c['guard'])]
     rep.check(len(gen) == 1 and in_loop(gen[0]) and len(wr) == 1 and in_loop(wr[0]), 'M3', 'write-loop:once-per-crate', 'one generate_types + one check_write_file per crate, unconditional', 'folder mode does not generate and write exactly once per crate, unconditionally', site)
     if wr:
         p = vt.show(wr[0]['args'][0])
